@@ -2,7 +2,7 @@
    Statements only; proofs in Proofs/HandshakeP.v. *)
 From Coq Require Import List NArith Bool.
 From Coq Require Import ZArith.
-From WS Require Import Base.Words Gen.Consts Gen.FrameCode Model.Proto Model.Handshake Proofs.HandshakeP Proofs.GenTieP Gen.NegoCode Proofs.GenTie2P.
+From WS Require Import Base.Words Gen.Consts Gen.FrameCode Model.Proto Model.Handshake Proofs.HandshakeP Proofs.GenTieP Gen.NegoCode Proofs.GenTie2P Gen.TakeoverCode Gen.HeaderCode.
 Import ListNotations.
 
 (* server: compression only if enabled, and only from the FIRST permessage-deflate offer that is acceptable (earlier
@@ -113,3 +113,18 @@ Print Assumptions C14_verify_exts_is_source.
 Theorem C14_window_bits_are_source : forall s, hs_valid_bits s = gen_valid_window_bits s.
 Proof. exact valid_bits_is_source. Qed.
 Print Assumptions C14_window_bits_are_source.
+
+(* which flag a direction consults is what msgReader.flateContextTakeover (read.go) and msgWriter.flateContextTakeover (write.go) say,
+   translated into Gen/TakeoverCode.v on every run: the reader of a client follows the SERVER's flag and so on *)
+Theorem C14_reader_takeover_is_source : forall r c, reader_takeover r c = gen_reader_takeover (is_client r) (cnct c) (snct c).
+Proof. exact reader_takeover_is_source. Qed.
+Print Assumptions C14_reader_takeover_is_source.
+
+Theorem C14_writer_takeover_is_source : forall r c, writer_takeover r c = gen_writer_takeover (is_client r) (cnct c) (snct c).
+Proof. exact writer_takeover_is_source. Qed.
+Print Assumptions C14_writer_takeover_is_source.
+
+(* the header value of an offer / an answer is what compressionOptions.String (compress.go, Gen/HeaderCode.v) renders *)
+Theorem C14_rendering_is_source : forall c, render_copts c = gen_render_copts (cnct c) (snct c).
+Proof. exact render_copts_is_source. Qed.
+Print Assumptions C14_rendering_is_source.
